@@ -53,9 +53,10 @@ def _lams(S, fam, scal, env, tag):
     if fam == "ref" or not scal:
         return [(1, (1, 0))]
     g = rng(env, "lam:" + tag)
+    # "almost one" scalings: real part exactly 1 with a non-zero imaginary part, purely imaginary unit
     if scal == "all4":
-        return [(1, (1, 0)), (2, (1, 0)), (1, (0, 2)), (2, (0, 2))]
-    out = [(1, (1, 0)), (2, (0, 2)), (S.p - 1, (S.p - 1, 0))]
+        return [(1, (1, 0)), (2, (1, 0)), (1, (0, 2)), (2, (0, 2)), (1, (1, 3)), (1, (0, 1))]
+    out = [(1, (1, 0)), (2, (0, 2)), (S.p - 1, (S.p - 1, 0)), (1, (1, 7 % S.p or 1)), (1, (1, S.p - 1)), (1, (0, 1))]
     out.append((g.randrange(2, S.p), (g.randrange(S.p), g.randrange(S.p))))
     return out
 
@@ -195,6 +196,9 @@ def task_offcurve(a, env):
         flags = (None,) if fam == "ref" else (None, False, True)
         for fe in flags:
             o = PL.call(S.pair(fam).pairing, lq, lp) if fe is None else PL.call(S.pair(fam).pairing, lq, lp, final_exponentiate=fe)
+            if fe is not None and o[0] == "raise":
+                # the flag is the third parameter: the same question with the flag given positionally
+                o = PL.call(S.pair(fam).pairing, lq, lp, fe)
             r.ev += 1
             r.dk.add((lbl, str(fe)))
             if o[0] != "raise":
@@ -230,6 +234,8 @@ def replay_off(a):
     _error_path_history(a["cfg"])
     fe = a.get("fe")
     o = PL.call(S.pair(a["fam"]).pairing, lq, lp) if fe is None else PL.call(S.pair(a["fam"]).pairing, lq, lp, final_exponentiate=fe)
+    if fe is not None and o[0] == "raise":
+        o = PL.call(S.pair(a["fam"]).pairing, lq, lp, fe)
     return None if o[0] == "raise" else {"case": lbl, "expected": "an exception", "observed": "returned a value"}
 
 
